@@ -11,7 +11,7 @@ import collections
 import itertools
 
 from . import probes
-from .chartgen import build_api, build_yaml, Tree, HIST
+from .chartgen import build_api, build_yaml, build_api_rebuilt, Tree, HIST
 from .refmodel import Model, canon_snaps
 
 from sismic.interpreter import Interpreter
@@ -22,7 +22,7 @@ class Exec:
     """one executed (state, op): everything the oracles may look at"""
     __slots__ = ('hist', 'op', 'conf_before', 'snaps_before', 'outcome', 'step', 'log', 'gseen',
                  'conf_after', 'final_after', 'exc', 'it', 'drain', 'ctx_before', 'ctx_after',
-                 'leftovers', 'log_after_drain')
+                 'leftovers', 'log_after_drain', 'mutated')
 
 
 class Runner:
@@ -33,6 +33,8 @@ class Runner:
         self.T = self.model.T
         if prebuilt is not None:
             self.sc, self.objs = prebuilt
+        elif builder == 'rebuilt':
+            self.sc, self.objs = build_api_rebuilt(spec)
         elif builder == 'api':
             self.sc, self.objs = build_api(spec)
         else:
@@ -42,6 +44,7 @@ class Runner:
         self.extra_context = extra_context or {}
         self.interp_kwargs = interp_kwargs or {}
         self.leftovers = []
+        self.kept = []          # (MacroStep, signature when it was returned) of the current run
 
     # ----------------------------------------------------------------- real execution
     def new_interpreter(self):
@@ -78,6 +81,8 @@ class Runner:
         # drain: events still queued (the event itself after an eventless step, internal events
         # sent by the fragments) are consumed with all guards false by transition-less steps, so
         # that the queues are not part of the explored state
+        if step is not None:
+            self.kept.append((step, _step_sig(step)))
         self.leftovers = []
         if drain:
             while len(self.leftovers) < 64:
@@ -89,7 +94,10 @@ class Runner:
 
     def fresh(self, hist):
         it = self.new_interpreter()
-        it.execute_once()
+        self.kept = []
+        first = it.execute_once()
+        if first is not None:
+            self.kept.append((first, _step_sig(first)))
         while it.execute_once() is not None:
             pass
         for op in hist:
@@ -120,6 +128,9 @@ class Runner:
             except Exception as e:
                 ex.outcome, ex.exc = 'crash:' + type(e).__name__, e
         ex.log_after_drain = list(probes.LOG)
+        # macro steps returned earlier in this run must still say what they said when they were returned
+        ex.mutated = ['macro step #%d of the run said %r when it was returned and now says %r'
+                      % (i, sig[1], _step_sig(st)[1]) for i, (st, sig) in enumerate(self.kept) if _step_sig(st) != sig]
         ex.conf_after = frozenset(it.configuration)
         ex.final_after = it.final
         ex.ctx_after = _plain_ctx(it.context)
@@ -170,6 +181,12 @@ class Runner:
         return ops
 
 
+def _step_sig(step):
+    return (step.event.name if step.event is not None else None,
+            tuple((id(ms.transition), tuple(ms.exited_states), tuple(ms.entered_states),
+                   tuple(e.name for e in ms.sent_events)) for ms in step.steps))
+
+
 def _plain_ctx(ctx):
     out = {}
     for key, v in ctx.items():
@@ -209,6 +226,7 @@ def explore(spec, k, oracles, builder='api', max_states=100000, k_by_arity=None,
                 break
             ex.leftovers.append(d)
     ex.log_after_drain = list(probes.LOG)
+    ex.mutated = []
     ex.conf_after, ex.final_after, ex.it, ex.drain = frozenset(it.configuration), it.final, it, None
     ex.ctx_after = _plain_ctx(it.context)
     res['transitions'] += 1
@@ -317,7 +335,7 @@ def expected_fired(R, ex):
 def oracle_trace(R, ex):
     """C03 (a)(b)(c): the probe log is exactly what the MacroStep says, the micro steps applied in
     order give the configuration, sent events are the ones the fragments sent."""
-    out = []
+    out = [('trace', m) for m in getattr(ex, 'mutated', [])[:2]]
     if ex.step is None:
         if ex.exc is None and ex.log:
             out.append(('trace', 'code ran but execute_once returned None: %r' % (ex.log,)))
@@ -523,6 +541,7 @@ def oracle_history(R, ex):
     if touched and set(ex.conf_after) != conf:
         out.append(('history', 'after history restoration configuration %s, expected %s'
                     % (sorted(ex.conf_after), sorted(conf))))
+    out += memory_crosscheck(R, ex, osnaps)
     return out
 
 
@@ -572,4 +591,30 @@ def oracle_conflict(R, ex):
         if ex.drain != ('step', R.event, 0):
             out.append(('effects', 'after %s the event is not pending any more: next step gave %r'
                         % (err, ex.drain)))
+    return out
+
+
+def memory_crosscheck(R, ex, snaps):
+    """guard against latent divergence (DESIGN.md §3.4): when the private history memory exists it must hold,
+    for every history state whose parent was exited, exactly what the reference snapshot implies"""
+    mem = getattr(ex.it, '_memory', None)
+    if not isinstance(mem, dict):
+        return []
+    out = []
+    m, T = R.model, R.T
+    for parent, h in m.hist_parents.items():
+        for hname in [c for c in T.children(parent) if T.kind(c) in HIST]:
+            snap = snaps.get(parent)
+            got = mem.get(hname)
+            if snap is None:
+                if got is not None:
+                    out.append(('history', 'memory of %s is %s although its parent was never exited' % (hname, got)))
+                continue
+            want = set(snap) if T.kind(hname) == 'HD' else {c for c in T.children(parent) if c in snap}
+            try:
+                if got is None or set(got) != want or len(got) != len(want):
+                    out.append(('history', 'memory of %s holds %s, the parent was last exited with %s active'
+                                % (hname, got, sorted(want))))
+            except TypeError:
+                pass
     return out
